@@ -516,3 +516,148 @@ pub fn build_mutex(rng: &mut Rng, tier: u32) -> LiveBuilt {
         }),
     }
 }
+
+// ---------------------------------------------------------------------------------------------------------------
+// family `cancel_cvlock` (oracle only): a coroutine is cancelled while it re-locks the mutex inside Condvar::wait
+// (cancellation disabled there: the `b_ignore` path of Mutex::lock). Defect F11 (fixed in /repo 5bd8b87): the
+// ignoring waiter registered a release action and parked again; the next unlock woke it AND unlocked once more
+// => two holders. No replay model is attached to this family (the Condvar blocker's events would need the C11
+// model next to the Mutex one); its oracles are occupancy <= 1, completion, no poison.
+
+pub fn build_cvlock(rng: &mut Rng, _tier: u32) -> LiveBuilt {
+    let hold_us = 200 + rng.below(1300); // how long the notifier keeps the lock after notify_one
+    let cancel_us = rng.below(hold_us.min(600)); // the cancel lands while the waiter is parked in the re-lock (mostly)
+    let nprobe = 1 + rng.below(2) as usize;
+    let header = format!("family=cancel_cvlock hold_us={hold_us} cancel_us={cancel_us} probes={nprobe}");
+    LiveBuilt {
+        header,
+        filter: vec!["sync/mutex.rs"],
+        hang_ms: 4000,
+        run: Box::new(move || {
+            use may::sync::Condvar;
+            let mut fails = vec![];
+            let pair = Arc::new((Mutex::new(false), Condvar::new()));
+            let occ = Arc::new(AtomicUsize::new(0));
+            let max_occ = Arc::new(AtomicUsize::new(0));
+            let a_waiting = Arc::new(AtomicBool::new(false));
+            let notified = Arc::new(AtomicBool::new(false));
+            let stop = Arc::new(AtomicBool::new(false));
+            let drops = Arc::new(AtomicUsize::new(0));
+            let enter = {
+                let (occ, max_occ) = (occ.clone(), max_occ.clone());
+                move || {
+                    let o = occ.fetch_add(1, Ordering::SeqCst) + 1;
+                    max_occ.fetch_max(o, Ordering::SeqCst);
+                }
+            };
+            let (p_a, occ_a, aw, d_a, enter_a) = (pair.clone(), occ.clone(), a_waiting.clone(), drops.clone(), enter.clone());
+            let ha = unsafe {
+                coroutine::Builder::new()
+                    .name("c0".into())
+                    .spawn(move || {
+                        let _dc = DropCounter(d_a);
+                        let (m, cv) = &*p_a;
+                        let mut g = m.lock().unwrap();
+                        aw.store(true, Ordering::SeqCst);
+                        while !*g {
+                            g = match cv.wait(g) {
+                                Ok(g) => g,
+                                Err(e) => e.into_inner(),
+                            };
+                        }
+                        // back with the lock (re-acquired inside wait with cancellation disabled)
+                        enter_a();
+                        let t0 = std::time::Instant::now();
+                        while t0.elapsed() < Duration::from_micros(150) {
+                            std::hint::spin_loop();
+                        }
+                        occ_a.fetch_sub(1, Ordering::SeqCst);
+                        drop(g);
+                        // the next cancellation point ends the coroutine if the cancel was issued
+                        for _ in 0..3 {
+                            coroutine::yield_now();
+                        }
+                    })
+                    .unwrap()
+            };
+            std::mem::forget(ha.coroutine().clone());
+            let co = ha.coroutine().clone();
+            // notifier: takes the lock, sets the flag, notifies, KEEPS the lock for a while, unlocks
+            let (p_b, occ_b, aw_b, nt_b, enter_b) = (pair.clone(), occ.clone(), a_waiting.clone(), notified.clone(), enter.clone());
+            let tb = spawn_actor_thread("t1", move || {
+                let t0 = std::time::Instant::now();
+                while !aw_b.load(Ordering::SeqCst) && t0.elapsed() < Duration::from_secs(3) {
+                    std::thread::yield_now();
+                }
+                let (m, cv) = &*p_b;
+                let mut g = m.lock().unwrap();
+                enter_b();
+                *g = true;
+                cv.notify_one();
+                nt_b.store(true, Ordering::SeqCst);
+                let t1 = std::time::Instant::now();
+                while t1.elapsed() < Duration::from_micros(hold_us) {
+                    std::thread::yield_now();
+                }
+                occ_b.fetch_sub(1, Ordering::SeqCst);
+                drop(g);
+            });
+            // canceller
+            let nt_c = notified.clone();
+            let tc = std::thread::Builder::new()
+                .name("x0".into())
+                .spawn(move || {
+                    let t0 = std::time::Instant::now();
+                    while !nt_c.load(Ordering::SeqCst) && t0.elapsed() < Duration::from_secs(3) {
+                        std::thread::yield_now();
+                    }
+                    std::thread::sleep(Duration::from_micros(cancel_us));
+                    unsafe { co.cancel() };
+                })
+                .unwrap();
+            // probes: lock / try_lock as fast as they can while the hand-over happens
+            let mut tp = vec![];
+            for k in 0..nprobe {
+                let (p_d, occ_d, nt_d, st_d, enter_d) = (pair.clone(), occ.clone(), notified.clone(), stop.clone(), enter.clone());
+                tp.push(spawn_actor_thread(&format!("t{}", 2 + k), move || {
+                    let t0 = std::time::Instant::now();
+                    while !nt_d.load(Ordering::SeqCst) && t0.elapsed() < Duration::from_secs(3) {
+                        std::thread::yield_now();
+                    }
+                    let (m, _) = &*p_d;
+                    let mut n = 0u32;
+                    while !st_d.load(Ordering::SeqCst) && n < 400 {
+                        n += 1;
+                        let g = if n % 2 == 0 { m.try_lock().ok() } else { m.lock().ok() };
+                        if let Some(g) = g {
+                            enter_d();
+                            std::hint::spin_loop();
+                            occ_d.fetch_sub(1, Ordering::SeqCst);
+                            drop(g);
+                        }
+                    }
+                }));
+            }
+            match classify(ha.join()) {
+                Ok(_) => {}
+                Err(m) => fails.push(format!("the waiter panicked: {m}")),
+            }
+            stop.store(true, Ordering::SeqCst);
+            let _ = tb.join();
+            let _ = tc.join();
+            for t in tp {
+                let _ = t.join();
+            }
+            if max_occ.load(Ordering::SeqCst) > 1 {
+                fails.push(format!("mutual exclusion violated: {} holders at once", max_occ.load(Ordering::SeqCst)));
+            }
+            if pair.0.is_poisoned() {
+                fails.push("the mutex is poisoned after the cancellation".to_string());
+            }
+            if drops.load(Ordering::SeqCst) != 1 {
+                fails.push(format!("drop counter: dropped {} times", drops.load(Ordering::SeqCst)));
+            }
+            fails
+        }),
+    }
+}
